@@ -329,6 +329,9 @@ class Server(object):
         if not self.ehlo_as or self.authed or self.have_mailfrom:
             bad_sequence.send(self.io)
             return
+        if not arg:
+            bad_arguments.send(self.io)
+            return
         auth = self.extensions.getparam('AUTH')
         assert auth is not None
 
@@ -350,7 +353,7 @@ class Server(object):
             self.authed = True
 
     def _command_MAIL(self, arg):
-        match = from_pattern.match(arg)
+        match = from_pattern.match(arg or b'')
         if not match:
             bad_arguments.send(self.io)
             return
@@ -396,7 +399,7 @@ class Server(object):
         self.have_mailfrom = self.have_mailfrom or (reply.code == '250')
 
     def _command_RCPT(self, arg):
-        match = to_pattern.match(arg)
+        match = to_pattern.match(arg or b'')
         if not match:
             bad_arguments.send(self.io)
             return
